@@ -15,8 +15,9 @@ class ForeignWrite(Exception):
 
 
 class Opaque:
-    def __init__(self, term, owned=False):
+    def __init__(self, term, owned=False, **meta):
         self.term = term
+        self.meta = meta  # ghost vspace attributes (size, iscomplex, shape, basis) for operator-level contracts
         self.owned = owned  # bool, SBool: True = allocated by the code under contract in this activation (may be written)
         self.writes = []
 
@@ -74,9 +75,21 @@ def ovs():
         class OVS(C.VSpace):
             def __init__(self, value):
                 self.of = value.term if isinstance(value, Opaque) else None
+                self.meta = getattr(value, "meta", {})
 
             def zeros(self):
-                return Opaque(("zeros", self.of), owned=True)
+                return Opaque(("zeros", self.of), owned=True, **self.meta)
+
+            def ones(self):
+                return Opaque(("ones", self.of), owned=True, **self.meta)
+
+            size = property(lambda s: s.meta["size"])
+            iscomplex = property(lambda s: s.meta["iscomplex"])
+            shape = property(lambda s: s.meta["shape"])
+
+            def standard_basis(self):
+                for k in range(self.meta["nbasis"]):
+                    yield Opaque(("e", self.of, k), owned=True)
 
         C.VSpace.register(Opaque, OVS)
         _vs_registered[key] = OVS
